@@ -278,7 +278,7 @@ fn line_span_case<const LEN: usize, const N: usize>() {
     let mut st = rs;
     let mut j = 0;
     while j < LEN { if st < e && is_ws(bytes[st]) { st += 1; } j += 1; }
-    kani::cover!(st > rs && e < re && st < e, "line with leading and trailing white space reachable");
+    kani::cover!(LEN < 3 || (st > rs && e < re && st < e), "line with leading and trailing white space reachable");
     match si.line_span(k) {
         Some(r) => assert!(r.start == st && r.end == e, "C25.trim: the span of a line is that line without surrounding white space"),
         None => assert!(false, "C25.trim: every existing line has a span"),
@@ -339,3 +339,77 @@ fn symtab_rev_lookup_and_iter() {
     assert!(it.next() == Some(("Q", addr, external)), "C23.list: the listing holds the label with its address and external flag");
     assert!(it.next().is_none(), "C23.list: and nothing else");
 }
+
+// ---- C19 / C20: linking two object files without symbol tables (block union + overlap test) ---------------
+/// BOUNDED: one block of 1..=2 words per file, start addresses symbolic (any u16, as an untrusted file may hold).
+/// Never panics; succeeds exactly when the two blocks share no address; the result holds exactly the two blocks.
+#[kani::proof]
+#[kani::unwind(6)]
+fn link_two_blocks() {
+    let (s1, s2): (u16, u16) = (kani::any(), kani::any());
+    let (w1, w2): (Option<u16>, Option<u16>) = (kani::any(), kani::any());
+    let two1: bool = kani::any();
+    let two2: bool = kani::any();
+    let mut b1 = Vec::with_capacity(2); b1.push(w1); if two1 { b1.push(None); }
+    let mut b2 = Vec::with_capacity(2); b2.push(w2); if two2 { b2.push(None); }
+    let (l1, l2) = (b1.len() as u32, b2.len() as u32);
+    let mut m1 = BTreeMap::new(); m1.insert(s1, b1);
+    let mut m2 = BTreeMap::new(); m2.insert(s2, b2);
+    let a = ObjectFile { block_map: m1, sym: None };
+    let b = ObjectFile { block_map: m2, sym: None };
+    // blocks as address intervals (mathematical integers; blocks produced by the assembler never wrap, blocks
+    // read from an untrusted file may)
+    let (e1, e2) = (s1 as u32 + l1, s2 as u32 + l2);
+    let disjoint = e1 <= s2 as u32 || e2 <= s1 as u32;
+    let wraps = e1 > 0x10000 || e2 > 0x10000;
+    kani::cover!(wraps, "wrapping block reachable");
+    let r = ObjectFile::link(a, b);        // C19: must not panic for any block, wrapping or not
+    if !wraps {
+        match r {
+            Ok(o) => { assert!(disjoint, "C20.link: succeeds only when the blocks are disjoint");
+                       assert!(o.block_map.len() == 2 && o.sym.is_none(), "C20.link: the image is the union of the two images"); }
+            Err(e) => { assert!(!disjoint, "C20.link: fails only when the blocks overlap");
+                        assert!(matches!(e.kind, AsmErrKind::OverlappingBlocks), "C20.link: overlapping blocks are reported as such");
+                        let _ = e.span.first(); }
+        }
+    }
+}
+
+// ---- C24: line <-> address map container (BOUNDED: 3 source lines; which lines hold a statement is fixed per
+// obligation so that every container size is concrete; the recorded addresses are symbolic) ------------------
+/// `LineSymbolMap::new(lines)`: for a line table whose recorded addresses increase with the line number (what pass 1
+/// produces), `get(i)` is exactly the address recorded for line i (nothing for lines without a statement or past
+/// the end) and `find(a)` is the line a was recorded for: the mapping is one-to-one.
+fn line_map_case<const P0: bool, const P1: bool, const P2: bool>() {
+    let (a0, a1, a2): (u16, u16, u16) = (kani::any(), kani::any(), kani::any());
+    let l0 = if P0 { Some(a0) } else { None };
+    let l1 = if P1 { Some(a1) } else { None };
+    let l2 = if P2 { Some(a2) } else { None };
+    let lines_arr = [l0, l1, l2];
+    // recorded addresses strictly increase with the line number
+    let mut last: Option<u16> = None;
+    let mut i = 0;
+    while i < 3 { if let Some(a) = lines_arr[i] { if let Some(p) = last { kani::assume(p < a); } last = Some(a); } i += 1; }
+    let mut v: Vec<Option<u16>> = Vec::with_capacity(3);
+    v.push(l0); v.push(l1); v.push(l2);
+    let m = match LineSymbolMap::new(v) { Some(m) => m, None => { assert!(false, "C24.new: an increasing line table is accepted"); return; } };
+    let mut q = 0;
+    while q < 5 {
+        let want = if q < 3 { lines_arr[q] } else { None };
+        assert!(m.get(q) == want, "C24.get: a line maps to exactly the address recorded for it; lines without a statement map to nothing");
+        q += 1;
+    }
+    let a: u16 = kani::any();
+    let mut line_of: Option<usize> = None;
+    let mut i = 0;
+    while i < 3 { if lines_arr[i] == Some(a) { line_of = Some(i); } i += 1; }
+    kani::cover!(!(P0 || P1 || P2) || line_of.is_some(), "address present reachable");
+    assert!(m.find(a) == line_of, "C24.find: an address maps back to the line it was recorded for, and to nothing otherwise");
+    std::mem::forget(m);
+}
+#[kani::proof] #[kani::unwind(8)] fn line_map_101() { line_map_case::<true, false, true>() }
+#[kani::proof] #[kani::unwind(8)] fn line_map_110() { line_map_case::<true, true, false>() }
+#[kani::proof] #[kani::unwind(8)] fn line_map_011() { line_map_case::<false, true, true>() }
+#[kani::proof] #[kani::unwind(8)] fn line_map_111() { line_map_case::<true, true, true>() }
+#[kani::proof] #[kani::unwind(8)] fn line_map_000() { line_map_case::<false, false, false>() }
+#[kani::proof] #[kani::unwind(8)] fn line_map_010() { line_map_case::<false, true, false>() }
